@@ -23,6 +23,17 @@ def _once(rep, seen, key, ok, rule, cons, why, **kw):
 
 
 def check(model, rep):
+    from checks.solver_common import absorb_arith, TIME_ARITH, EULER_ARITH, KIN_ARITH, TORQUE_ARITH
+    absorb_arith(model, rep, 'C11.dep.arith', TIME_ARITH)
+    # exactly round(T/dt) instants: the stepping loop may only end early through the stop condition (C16's placement rules)
+    from sa.core import Report
+    from checks.c16 import check_place
+    dep = Report('C16')
+    try:
+        check_place(model, dep)
+    except CannotDecide as e:
+        rep.cannot('C11.count', 'Solver.run', str(e))
+    rep.absorb(dep, {'C16.place': 'C11.count'})
     rep.explain('C11: the stepping loop of Solver.run is located in the solver IR as the loop whose body appends to '
                 'Powertrain.time; its iteration space must be an integer range whose length is round(T/dt) (T, dt the two '
                 'TimeInterval parameters, divided as quantities), the appended instant must be canonically start + k*dt with '
